@@ -151,7 +151,11 @@ class BufferedPipe:
                     if timeout is not None:
                         timeout -= time.time() - then
                         if timeout <= 0.0:
-                            raise PipeTimeout()
+                            # only a timeout if there is still nothing to
+                            # report (data may have arrived, or the pipe may
+                            # have been closed, right at the deadline)
+                            if len(self._buffer) == 0 and not self._closed:
+                                raise PipeTimeout()
 
             # something's in the buffer and we have the lock!
             if len(self._buffer) <= nbytes:
